@@ -47,6 +47,45 @@ def run(tier):
         rep.cov["transitions"] += states
         complaints_to_violations(rep, comps, None, {"traits": tag(c)})
         os.remove(merged)
+    # assignments that build a temporary array inside the library (from views, iterator ranges, initializer lists, arrays of
+    # another allocator type): two-dimensional, so that a source of the same element count but another shape exists
+    extra_ops = ["ctor_iota_al", "assign_view", "assign_range", "assign_il", "assign_other", "assign_copy", "assign_move", "reextent", "write", "destroy"]
+    # (not with propagate_on_container_move_assignment: the library move-assigns its temporary, which then carries the
+    #  temporary's default-constructed allocator into the array; the property says when copy/move assignment and swap replace
+    #  the allocator and is silent about assignment from a view, so that allocator is not demanded)
+    for c in [cc for cc in combos if tag(cc) in ("0000", "1000", "0010")]:
+        name = "c10_tmp_" + tag(c)
+        k = consts(2, 2, 3, False, extra_ops)
+        k.update({"AllocIds": {1, 3}, "POCCA": c[0], "POCMA": c[1], "POCS": c[2], "AlwaysEq": c[3]})
+        traces = arrays.run_config(rep, "C10", name, k, exes[c], wd, 2, trace=True, check_alloc=True, sig_extra={"traits": tag(c), "part": "temporaries"})
+        comps, states = vlib.validate_traces("Lifecycle", "MSpec", traces, name + "_mon")
+        events += states
+        rep.cov["states"] += states
+        rep.cov["transitions"] += states
+        complaints_to_violations(rep, comps, None, {"traits": tag(c), "part": "temporaries"})
+        for t in traces:
+            os.remove(t)
+    # failures while allocators propagate or differ: every injection point of the last operation (as C09 does for equal allocators)
+    fault_ops = ["ctor_iota_al", "ctor_copy_al", "ctor_move_al", "assign_copy", "assign_move", "assign_view", "reextent", "reextent_fill"]
+    faulted = 0
+    for c in [cc for cc in combos if tag(cc) in ("0000", "1000", "0100", "1100")]:
+        name = "c10_faults_" + tag(c)
+        k = consts(1, 2, 3, False, fault_ops)
+        k.update({"AllocIds": {1, 3}, "POCCA": c[0], "POCMA": c[1], "POCS": c[2], "AlwaysEq": c[3]})
+        traces = arrays.run_config(rep, "C10", name, k, exes[c], wd, 2, trace=True, faults=True, judge_values=False, sig_extra={"traits": tag(c), "part": "faults"})
+        obs = rep.notes.get("_last_obs", {})
+        faulted += sum(int(o.get("points_last", 0)) for o in obs.values() if isinstance(o, dict))
+        comps, states = vlib.validate_traces("Lifecycle", "MSpec", traces, name + "_mon")
+        events += states
+        rep.cov["states"] += states
+        rep.cov["transitions"] += states
+        complaints_to_violations(rep, comps, rep.notes.get("_last_exps"), {"traits": tag(c), "part": "faults"})
+        for t in traces:
+            try:
+                os.remove(t)
+            except OSError:
+                pass
+    rep.notes["faulted_runs"] = faulted
     rep.notes["events_validated"] = events
     rep.notes["configurations"] = [tag(c) for c in combos]
     rep.assumptions = ["allocator instances 1 and 2 compare equal, 3 is unequal to both; select_on_container_copy_construction(a) is a "
